@@ -48,14 +48,14 @@ def sample_hdi(sample: ndarray, fraction: float) -> ndarray:
             """
         )
 
+    if not s.dtype.isnative:
+        # (the same numbers in this machine's byte order: the type comparisons below
+        # are made with native types)
+        s = s.astype(s.dtype.newbyteorder("="))
     # the window widths are differences of sample values: in a narrow integer type
     # these would wrap around, and booleans cannot be subtracted at all
     if s.dtype.kind in "iub" and s.dtype.itemsize < 8:
         s = s.astype(int64)
-    elif not s.dtype.isnative:
-        # (the same numbers in this machine's byte order: the type comparisons below
-        # are made with native types)
-        s = s.astype(s.dtype.newbyteorder("="))
     # in a half- or single-precision type they would overflow / be rounded
     elif s.dtype.kind == "f" and s.dtype.itemsize < 8:
         s = s.astype(float64)
